@@ -141,9 +141,11 @@ def shifted_positions_pairing(facts, res):
                 fr = frees[0]
                 st = stmt_of(fr, blk)
                 sibs = kids(blk)
-                if st is None or st is not sibs[-1]:
+                # last statement of the acquiring block, or followed by nothing but a bare `return;` (leaving right after the release)
+                tail = sibs[sibs.index(st) + 1:] if st is not None and any(x is st for x in sibs) else None
+                if st is None or tail is None or not all(x.get("k") == "ReturnStmt" and not kids(x) for x in tail) or len(tail) > 1:
                     res.violation(R, f, fn["qname"], key + ":free-position", fr["l"][1], "FreePositions(%s) is not the last unconditional statement of the block that acquired it" % v["name"])
-                if any(x.get("k") in ("ReturnStmt", "CXXThrowExpr", "BreakStmt", "ContinueStmt", "GotoStmt") for x in walk(blk)):
+                if any(x.get("k") in ("ReturnStmt", "CXXThrowExpr", "BreakStmt", "ContinueStmt", "GotoStmt") and (x["l"][1], x.get("b", 0)) < (fr["l"][1], fr.get("b", 0)) and (x["l"][1], x.get("b", 0)) > (v["l"][1], v.get("b", 0)) for x in walk(blk)):
                     res.violation(R, f, fn["qname"], key + ":early-exit", v["l"][1], "an exit statement between the acquisition and the release of '%s' leaks it" % v["name"])
                 later = [x for x in walk(blk) if x.get("k") == "DeclRefExpr" and x.get("did") == did and (x["l"][1], x.get("b", 0)) > (fr["l"][1], fr.get("e", 0))]
                 if later:
